@@ -17,12 +17,15 @@ EXTRA = [
     "```{note}\n# nested heading\n\n[^1]\n```\n\n[^1]: fn\n", "[^a]\n\n```{note}\n[^a]: inside directive\n```\n", "1. a\n\n   | x |\n   |---|\n   | y |\n", "<div>\n\n---\n\n</div>\n",
     # one id used twice (attribute blocks): docutils reports into the node that is being registered
     "{#x}\n# A\n\n{#x}\n# B\n\n[](#x)\n", "{#x}\n# A\n\n(x)=\npara\n", "(x)=\n# A\n\n{#x}\n## B\n", "{#a}\n# A\n\n## a\n", "{#x}\npara\n\n{#x}\n# H\n",
+    # repeated heading texts and links to each of their slugs; nested line blocks; headings inside directive bodies
+    "# Notes\n\n# Notes\n\n## Notes\n\n[a](#notes) [b](#notes-1) [c](#notes-2) [](#notes-1)\n", "```{line-block}\na\n  b\nc\n  d\n    e\nf\n```\n", "```{line-block}\n  a\nb\n  c\n```\n",
+    "```{topic} T\n# in topic\n\ntext\n```\n\n# after\n\n[](#in-topic)\n", "# !!!\n\n# ???\n\n[](#) [x](#-1)\n",
     "# T\n\n[](#t) [](#t)\n", "```{contents}\n```\n\n# H1\n\n## H2\n", "a[^x][^y]\n\n[^y]: Y\n[^x]: X\n", "[^1]: a\n\n# Heading after footnote\n\ntext[^1]\n",
 ]
 COLS = "| " + " | ".join(f"c{i}" for i in range(101)) + " |\n|" + "---|" * 101 + "\n| " + " | ".join("v" for i in range(101)) + " |\n"
 
 
-def check_doc(col, text, ov, tag):
+def check_doc(col, text, ov, tag, crash_is_c01=False):
     case = {"text": text if len(text) < 3000 else text[:200] + "...(101 columns)", "overrides": ov, "wide": len(text) >= 3000}
     try:
         doc, lines = parse(text, dict(ov, doctitle_xform=False))
@@ -30,12 +33,22 @@ def check_doc(col, text, ov, tag):
         import traceback
 
         tb = "".join(traceback.format_exception(type(exc), exc, exc.__traceback__))
-        known = "C03-hr-in-container" if "transition" in tb.lower() or "Transitions" in tb else None
+        from harness.C01 import _transition_assertion
+
+        if not _transition_assertion(tb):
+            # some other assertion of docutils (e.g. its own target-notes defect): no document was produced - C01's question
+            if not crash_is_c01:
+                col.fail("C03.parse", case, f"{type(exc).__name__}: {exc}")
+            return
+        known = "C03-hr-in-container"
         col.fail("C03.transition-parent", case, "docutils' Transitions transform asserts: a transition is not directly under the document or a section", known=known,
                  function="myst_parser.mdit_to_docutils.base:DocutilsRenderer.render_hr")
         return
+    except RecursionError:
+        return
     except Exception as exc:  # noqa: BLE001
-        col.fail("C03.parse", case, f"{type(exc).__name__}: {exc}")
+        if not crash_is_c01:
+            col.fail("C03.parse", case, f"{type(exc).__name__}: {exc}")
         return
     for rule, msg in check_tree(doc, lines):
         known = None
@@ -65,6 +78,19 @@ def run(tier, seed, extra):
         col.case(text)
         check_doc(col, text, {"myst_enable_extensions": ["colon_fence", "deflist", "fieldlist", "attrs_block"], "myst_heading_anchors": rng.randint(0, 3)}, "gen")
         cnt += 1
+    # the one-factor grids of C01's stand-in (every directive x body shape, attribute keys x values, odd labels, HTML forms):
+    # whenever a document IS produced it must be well formed (whether one is produced is C01's question)
+    from harness.C01 import grid_cases
+
+    grid = grid_cases()
+    sample = rng.sample(grid, 400 if tier == "quick" else 8000)
+    t1 = time.time()
+    for key, text, ov in sample:
+        col.case(("grid",) + tuple(key))
+        check_doc(col, text, ov, "grid", crash_is_c01=True)
+    col.add_bound("well-formedness over the one-factor grids", f"{len(sample)} documents sampled (seeded) from {len(grid)}: directives x arguments x body shapes, "
+                  "attribute keys x values, label pairs, HTML attribute forms, configuration values", len(sample), time.time() - t1)
+    cnt += len(sample)
     col.add_bound("well-formedness of the doctree after the standard transforms",
                   f"{cnt} documents: footnote / target / reference / table / transition / nested-heading vocabulary x 4 configurations, a 101-column table, generated nested documents (seed {seed})", cnt, time.time() - t0)
     return col.result()
